@@ -105,6 +105,8 @@ SHAPES = [
     ("ExistsCriterion.container", "T", lambda tb: ["exists", qs([tb], [["field", "k", None, None]])]),
     ("ValueWrapper.value", "t", lambda x: ["vwterm", x]),
     ("AtTimezone.field", "f", lambda x: ["attz", x, "UTC"]),
+    ("_SetOperation.base_query", "T", lambda tb: ["union", qs([tb], [["field", "k", None, None]]), qs([list(C_TBL)], [["field", "k", None, None]])]),
+    ("_SetOperation._set_operation", "T", lambda tb: ["union", qs([list(C_TBL)], [["field", "k", None, None]]), qs([tb], [["field", "k", None, None]])]),
 ]
 CRIT_KINDS = ("basic", "cplx", "in", "between", "bitand", "isnull", "notnull", "not", "all", "period", "nested", "insub",
               "cmpsub", "exists")
